@@ -300,6 +300,8 @@ def rule_phis_and_locals(ctx):
             okk = render(strip(fl.get("var", {"k": "?"}))).replace(" ", "") == "%s.without_version()" % pv[0] and last(render(strip(fl.get("op", {"k": "?"})))) == "AssignLocalOrComponent" and args_empty
         ctx.check(R, "new_phi_statement/unversioned-target-empty-args", okk, t[:200], site(SI, f))
     f = find_fn(SI, "ensure_phi_argument")
+    if f is not None and eval_phi_argument(ctx, R, f):
+        f = None
     if f is not None:
         from pathcond import enumerate_paths
 
@@ -386,6 +388,67 @@ def rule_phis_and_locals(ctx):
                 rt = render(strip(a["r"])).replace(" ", "")
                 rhs = any(rt == "%s.with_version(%s)" % (nm, v_) for v_ in vb) or (not vb and rt == "%s.with_version(version)" % nm)
                 ctx.check(R, "visit_expression/%s/write%d/only-locals-current-version" % (variant, i + 1), ok and cur and rhs, "versioned under %s" % cs, site(SI, a))
+
+
+def eval_phi_argument(ctx, R, f):
+    """ensure_phi_argument evaluated on a phi statement for (the environment has a current version of the variable or
+    not) x (what the argument list already holds): afterwards the list holds the current version - or, when the
+    variable is unassigned along this edge, an unversioned argument - exactly once; nothing else changes."""
+    import passeval
+    from finfun import NONE, S, Unsupported
+    from passeval import O, Sink, V
+
+    try:
+        w = passeval.PassWorld([IR, SI], SI)
+    except Exception:
+        return False
+    w.lenient_opaque = True
+    w.method_stubs = {("Statement", "propagate_types"): lambda r, a: ("T", ()), ("Statement", "cache_variable_use"): lambda r, a: ("T", ())}
+    n = 0
+    bad = None
+
+    def mk(ver):
+        return ("O", "x@%s" % (ver,), (("version", NONE if ver is None else S("Some", ver)),))
+
+    for cur in (None, 3):
+        for have in ((), (1,), (3,), (None,), (1, 3), (1, None)):
+            made = []
+
+            def with_version(v, made=made):
+                o_ = mk(v)
+                made.append(o_)
+                return o_
+
+            def without_version(made=made):
+                o_ = mk(None)
+                made.append(o_)
+                return o_
+
+            name0 = ("O", "x", (("version", NONE), ("with_version", ("PY", with_version)), ("without_version", ("PY", without_version))))
+            args = Sink()
+            args.items = [mk(v) for v in have]
+            before = list(args.items)
+            stmt = V("Statement", "Substitution", meta=O("meta"), var=name0, op=O("op"), rhe=V("Expression", "Phi", meta=O("phi-meta"), args=args))
+            envv = ("O", "environment", (("get_current_version", ("PY", lambda nm, cur=cur: NONE if cur is None else S("Some", cur))), ("declarations", O("declarations"))))
+            try:
+                w.call_fn(f, [stmt, envv])
+            except Unsupported as u:
+                ctx.note("ensure_phi_argument is outside the evaluator's subset (%s): shape obligations apply" % u)
+                return False
+            except passeval.Panic as p_:
+                bad = bad or "panics: %s" % p_
+                continue
+            n += 1
+            after = stmt[3]["rhe"][3]["args"]
+            after = after.items if isinstance(after, Sink) else None
+            vers = [dict(a_[2]).get("version") for a_ in after] if after is not None else None
+            want_ver = NONE if cur is None else S("Some", cur)
+            ok = after is not None and after[:len(before)] == before and vers.count(want_ver) == 1 and len(after) == len(before) + (0 if want_ver in [dict(b_[2]).get("version") for b_ in before] else 1)
+            if not ok:
+                bad = bad or "current version %s, arguments before %s: afterwards %s" % (cur, list(have), [a_[1] for a_ in after] if after is not None else "?")
+    ctx.floor(R, "phi argument worlds evaluated", n, 10)
+    ctx.check(R, "ensure_phi_argument/every-edge-contributes", bad is None, bad or "each incoming edge leaves exactly one argument: the current version, or an unversioned one when the variable is unassigned along the edge")
+    return True
 
 
 def eval_renaming(ctx, R, f):
